@@ -103,6 +103,14 @@ def build(repo, tier):
                  'violations': viol}]
     spec.extra_checks.append(standin)
     spec.unit_bounded = lambda unit_name, tier, seed: render_bounded(repo.root, tier, seed)
+
+    def replayer(name, model, root):
+        w, n = render_bounded(root, 'thorough', 0)
+        if w is not None:
+            w['bounded_evaluated'] = n
+            return True, w
+        return False, {'note': f'no failing rendering among {n} checks', 'bounded_evaluated': n}
+    spec.lemma_replayers['C19/'] = replayer
     return spec
 
 
